@@ -414,7 +414,7 @@ Lemma parse_start_states_printed : forall pe iw st i names pads pre re,
 Proof.
   intros pe iw st i names pads pre re Hv Hst Hin Hp Hre. unfold parse_start_states.
   destruct pre as [|n ns].
-  - cbn [print_prefix app]. rewrite (Hre eq_refl). cbn [negb]. cbn [fix_dangling fix_iw fix_esc_table repaired mk_fixes andb unescape_sel].
+  - cbn [print_prefix app]. rewrite (Hre eq_refl). cbn [negb]. cbn [fix_dangling fix_iw fix_esc_table fix_esc_octal repaired mk_fixes andb unescape_sel].
     rewrite unescape_iw_spec. reflexivity.
   - destruct (pre_pieces_facts c_gt names (n :: ns) pads eq_refl eq_refl Hv Hin Hp) as [G1 _].
     destruct (pre_pieces_facts c_comma names (n :: ns) pads eq_refl eq_refl Hv Hin Hp) as [C1 [_ C3]].
@@ -435,7 +435,7 @@ Proof.
     rewrite (states_by_name_numbered st names i (n :: ns) Hst Hin). cbn [rbind].
     replace ([c_lt] ++ join_comma pieces ++ c_gt :: re) with ((c_lt :: join_comma pieces ++ [c_gt]) ++ re)
       by (cbn [app]; rewrite <- app_assoc; reflexivity).
-    rewrite slice_from_app' by (blen; lia). cbn [lift rbind]. cbn [fix_prefix_unescape fix_dangling fix_iw fix_esc_table repaired mk_fixes andb unescape_sel].
+    rewrite slice_from_app' by (blen; lia). cbn [lift rbind]. cbn [fix_prefix_unescape fix_dangling fix_iw fix_esc_table fix_esc_octal repaired mk_fixes andb unescape_sel].
     rewrite unescape_iw_spec. reflexivity.
 Qed.
 (* ---- one rule line ------------------------------------------------------------------------------------ *)
